@@ -7,6 +7,6 @@ h['obligations'] = ['every endorsement that follows the rules (any endorsed ance
                     'no VBK_ASSERT is reachable in apply / unapply / comparePopScore for any explored history (engine built-in obligation)']
 _rp = _ilu.spec_from_file_location('realspec', os.path.join(os.path.dirname(os.path.abspath(__file__)), '..', 'real', 'spec.py'))
 _real = _ilu.module_from_spec(_rp); _rp.loader.exec_module(_real)
-HARNESSES = [h] + copy.deepcopy(_real.HARNESSES)
+HARNESSES = [h] + copy.deepcopy([x for x in _real.HARNESSES if x['name'] == 'h_real'])
 EXPLANATION = _c02.EXPLANATION
 ASSUMPTIONS = _real.ASSUMPTIONS + _c02.ASSUMPTIONS + ['MockMiner, Merkle/signature construction, publication-data context info, mempool delivery orders and payouts are outside']
